@@ -547,6 +547,14 @@ def oracle(ctx: Ctx) -> OracleResult:
             res.failures.append(Failure(f'out-of-phase-message-took-effect:{o["phase"]}:type{o["t"]}:{fired[0].split(":")[1]}',
                                         f'{o["role"]} in {o["phase"]} (strict={o["strict"]}) acted on injected message '
                                         f'type {o["t"]}: application callback {fired[0]}', key))
+        # a connection-protocol message (80..127) before authentication is complete is refused outright: being
+        # processed quietly (a handler ran, a channel or request was registered, replies merely held back) or answered
+        # with UNIMPLEMENTED is "taking effect" for an unauthenticated peer
+        if o['phase'] in ('P0-version', 'P1-kexinit', 'P2-midkex', 'P3-newkeys', 'P4-auth') and 80 <= o['t'] <= 127 \
+                and o['variant'] != 'then-kexinit' and o['reaction'] in ('accepted', 'unimplemented'):
+            res.failures.append(Failure(f'connection-message-not-refused-before-authentication:{o["phase"]}',
+                                        f'{o["role"]} in {o["phase"]} (strict={o["strict"]}): injected message type '
+                                        f'{o["t"]} was {o["reaction"]} instead of ending the connection', key))
         if o['role'] == 'client' and o['t'] == 52 and o['phase'] != 'P4-auth' and o['phase'] != 'P5-open' and \
                 'cli:auth_completed' in o['new_callbacks']:
             res.failures.append(Failure('unsolicited-auth-success-accepted',
